@@ -21,6 +21,15 @@ ASSUMPTIONS = [
     'completeness is demanded when a later record is returned (nothing that still exists on disk may have been jumped) and '
     'at the end of the history after the party has followed the log until read() returned None three times with refreshes',
     'power loss is not modelled; file names are compared as the code builds them (utc=True)',
+    'doubtful case, counted (probes unknowable_backstep, doubtful_after_unknowable_backstep:*) instead of asserted: if every '
+    'log file with a timestamp >= T has vanished (external deletion) before the writer is constructed and the clock then '
+    'reads <= T, the writer has no trace of those files and creates files that sort before / reuse the names of the vanished '
+    'ones; parties positioned by the vanished files (or holding a stale tell) then miss or mis-seek into the new files. From '
+    'that point of a history on order / completeness / torn are not judged (overwrite, budget, newest-file still are)',
+    'thorough tier, file-system granularity: writer and reader r0 are two tasks, every FS call is a yield point; exceptions '
+    'escaping an API call there (FileNotFoundError out of scan_logfiles, JSONDecodeError on a partial line) are observations; '
+    'violations carry signature gran=fs; the short_write fault (a write(2) that transfers part of its bytes) is a separate '
+    'sub-scenario marked short_write=true',
 ]
 
 
